@@ -56,6 +56,10 @@ def gen_cases(rng, tier: str) -> list[dict]:
             pool4 = H.offender_pool(rng)
             cases.append({"origin": "offender", "pool": H.pool_to_wire(pool4),
                           "ops": H.repeated_simplification(rng, pool4)[: 14] + H.random_ops(rng, pool4, 4)})
+        if h % 4 == 1:
+            pool7 = H.float_pool(H.nested_pool(rng))
+            for ops in H.sharing_prefixes(rng, pool7):
+                cases.append({"origin": "sharing", "pool": H.pool_to_wire(pool7), "ops": ops + H.random_ops(rng, pool7, 2)})
         if h % 2 == 0:
             pool2 = H.sum_pool(rng) if h % 4 == 0 else pool
             cases.append({"origin": "resimplify", "pool": H.pool_to_wire(pool2),
